@@ -223,8 +223,26 @@ fn radiation_identities(cw: &mut CaseWriter) {
             }
         }
     }
+    // the same identity with the sun just above the horizon and some direct radiation (the file has none below 2 degrees): the sun
+    // positions of the file's hours, with synthetic inputs
+    let (mut n_low, mut worst_low) = (0u64, (0.0f32, Value::Null));
+    for d in &met.data {
+        let nday = climate::nday_from_ymd(2001, d.month, d.day);
+        let alt = altitude_sol_from_data(declination_from_nday(nday), hourangle_from_tsol(d.hour), lat);
+        if !(0.05..6.0).contains(&alt) {
+            continue;
+        }
+        for g in [SolarRadiation { dir: 10.0, dif: 20.0 }, SolarRadiation { dir: 300.0, dif: 100.0 }] {
+            n_low += 1;
+            let r = radiation_for_surface(nday, d.hour, g, lat, 180.0, 0.0, 0.2);
+            let e = (r.dir + r.dif - 0.2 * (g.dir + g.dif)).abs();
+            if e > worst_low.0 || !e.is_finite() {
+                worst_low = (e, json!({"month": d.month, "day": d.day, "hour": d.hour, "alt": alt, "in": [g.dir, g.dif], "out": [r.dir, r.dif]}));
+            }
+        }
+    }
     cw.write(json!({"op": "noop", "label": "radiation", "kind": "radiation",
-        "impl": {"hours_horizontal": n_h, "worst_horizontal": {"err": worst_h.0, "at": worst_h.1},
+        "impl": {"hours_low_sun_downward": n_low, "worst_low_sun_downward": {"err": worst_low.0, "at": worst_low.1}, "hours_horizontal": n_h, "worst_horizontal": {"err": worst_h.0, "at": worst_h.1},
                  "hours_downward": n_d, "worst_downward": {"err": worst_d.0, "at": worst_d.1},
                  "beam_evaluations": n_b, "negative_beam": neg_beam}}));
     // tables of the zone whose weather file is shipped, recomputed from that file
